@@ -1,10 +1,14 @@
 import Xo.Drv.Alloc
 import Xo.Drv.Topo
+import Xo.Drv.CApi
+import Xo.Drv.Spec
 /-! `lake env lean --run Driver.lean <component>` : stdin ops → stdout results -/
 def main (args : List String) : IO UInt32 := do
   let i ← IO.getStdin
   let o ← IO.getStdout
   match args with
   | ["alloc"] => Drv.loop i o Drv.AllocD.step Drv.AllocD.init; return 0
+  | ["capi"] => Drv.loop i o Drv.CApiD.step Drv.CApiD.init; return 0
+  | ["spec"] => Drv.loop i o Drv.SpecD.step (); return 0
   | ["topo"] => Drv.loop i o Drv.TopoD.step (); return 0
   | _ => IO.eprintln "usage: Driver.lean <component>"; return 2
